@@ -114,6 +114,15 @@ MUTANTS = [
      "        contract_every=contract_every,\n        inplace=True,\n        **contract_opts,\n    )\n    bp.run(", "expect-fail"),
     ("quimb/tensor/belief_propagation/bp_common.py", "compress_d2bp::frame-", "        self.tn = tn if inplace else tn.copy()", "        self.tn = tn", "expect-fail"),
     (D2, "D2BP.compress::frame-", "        tn = self.tn if inplace else self.tn.copy()", "        tn = self.tn", "expect-fail"),
+    # reverting the fix of TensorNetwork1DFlat.expand_bond_dimension: zero-argument super() binds the ORIGINAL self
+    (T1, "TensorNetwork1DFlat.expand_bond_dimension::frame-", "        tn = super(TensorNetwork1DFlat, tn).expand_bond_dimension(",
+     "        tn = super().expand_bond_dimension(", "expect-fail"),
+    (T1, "TensorNetwork1DFlat.expand_bond_dimension::frame-", "        tn = super(TensorNetwork1DFlat, tn).expand_bond_dimension(",
+     "        tn = super(TensorNetwork1DFlat, self).expand_bond_dimension(", "expect-fail"),
+    # reverting the alias re-binds of finding 17
+    (T1, "alias-pairing[MatrixProductState.flip_]", "    flip_ = functools.partialmethod(flip, inplace=True)\n", "", "expect-fail"),
+    (T2, "alias-pairing[TensorNetwork2DFlat.expand_bond_dimension_]",
+     "    expand_bond_dimension_ = functools.partialmethod(\n        expand_bond_dimension, inplace=True\n    )\n", "", "expect-fail"),
     # a leaf mutator loses its write: every caller stays fine, the leaf consistency obligation notices
     (TC, "Tensor._set_data::leaf-summary-consistent", "        self._data = asarray(data)\n", "        pass\n", "expect-fail"),
 ]
